@@ -252,7 +252,7 @@ func vfC05Transfer(sess *vfSession, a vfC05Act, src, base string) string {
 		// a relay: a relay that saw the trigger reads its client's answer junk-tolerantly and discards what is typed in front of it)
 		chatter = vfStartChatter(sess)
 	}
-	early := a.Early && (a.Outcome == "stopped" || a.Outcome == "sigint")
+	early := a.Early && (a.Outcome == "stopped" || a.Outcome == "sigint" || a.Outcome == "stopped_ui")
 	if early {
 		// the transfer ends between the action and the configuration: the server is held (SIGSTOP) just before the action reaches
 		// it, the end happens (the client is stopped, or the server is interrupted), and only then the server runs again. A slow
@@ -263,6 +263,7 @@ func vfC05Transfer(sess *vfSession, a vfC05Act, src, base string) string {
 		}
 		var once sync.Once
 		stopClient := a.Outcome == "stopped"
+		stopUI := a.Outcome == "stopped_ui"
 		tap.onMsg = func(m vfMsg, before bool) {
 			if !before { // the first protocol line of this transfer towards the server is the action
 				return
@@ -272,7 +273,14 @@ func vfC05Transfer(sess *vfSession, a vfC05Act, src, base string) string {
 				sess.signalServer(syscall.SIGSTOP)
 				go func() {
 					time.Sleep(40 * time.Millisecond)
-					if stopClient {
+					if stopUI {
+						// the user's way: Ctrl-C, the stop question, Ctrl-C again for a plain stop
+						from := sess.termOut.len()
+						sess.typeInput([]byte{0x03})
+						if !vfAnswerPrompt(sess, from, "\x03") {
+							sess.filter.StopTransferringFiles(false)
+						}
+					} else if stopClient {
 						sess.filter.StopTransferringFiles(false)
 					} else {
 						sess.signalServer(syscall.SIGINT)
@@ -435,7 +443,7 @@ func vfGenC05(rt *rapid.T) vfC05Case {
 			a.Kind = "transfer"
 			a.Outcome = rapid.SampledFrom([]string{"succeeded", "refused", "failed", "stopped", "stopped_ui", "sigint", "forked"}).Draw(rt, "outcome")
 			a.Upload = rapid.Bool().Draw(rt, "upload")
-			a.Early = (a.Outcome == "stopped" || a.Outcome == "sigint") && rapid.IntRange(0, 2).Draw(rt, "early") == 0
+			a.Early = (a.Outcome == "stopped" || a.Outcome == "sigint" || a.Outcome == "stopped_ui") && rapid.IntRange(0, 2).Draw(rt, "early") == 0
 		case cs.Sess.Drag && k == 1 && rapid.IntRange(0, 2).Draw(rt, "dragback") == 0:
 			a.Kind = "dragback"
 			a.Chunks = [][]byte{
